@@ -31,6 +31,7 @@ package server
 //@   ensures [int] typeis(value, int) ==> result1 && result0 == as(value, int)
 //@   ensures [int64] typeis(value, int64) ==> result1 && result0 == as(value, int64)
 //@   ensures [other] !typeis(value, int) && !typeis(value, int32) && !typeis(value, int64) && !typeis(value, float64) && !typeis(value, float32) && !typeis(value, string) ==> !result1 && result0 == 0
+//@   ensures [C19:str_decimal] typeis(value, string) ==> result1 == (len(trimspace(as(value, string))) > 0 && atoiok(trimspace(as(value, string)))) && result0 == ite(result1, atoival(trimspace(as(value, string))), 0)
 
 //@ func normalizeServerSettings
 //@   props C19
